@@ -65,6 +65,18 @@ def r_default_inputs(c):
             return dict(reproduced=False)
         mtl_backward([p2[l] for l in losses], [p2[f] for f in feats], Constant(w), tasks_params=[[p2[n] for n in t] for t in tasks], shared_params=[p2[n] for n in shared])
         g1, g2 = grads(p1), grads(p2)
+        # mixed call: shared_params defaulted, tasks_params explicit and partial (first task lists nothing)
+        p3, p4 = RealProg(spec, c.get("jac") or {}), RealProg(spec, c.get("jac") or {})
+        part = lambda p: [[]] + [[p[n] for n in t] for t in tasks[1:]]
+        mtl_backward([p3[l] for l in losses], [p3[f] for f in feats], Constant(w), tasks_params=part(p3))
+        mtl_backward([p4[l] for l in losses], [p4[f] for f in feats], Constant(w), tasks_params=part(p4), shared_params=[p4[n] for n in shared])
+        g3, g4 = grads(p3), grads(p4)
+        for n in names:
+            za = np.zeros(tuple(p3[n].shape)) if g3[n] is None else g3[n]
+            zb = np.zeros(tuple(p3[n].shape)) if g4[n] is None else g4[n]
+            if not close(za, zb) or ((g3[n] is None) != (g4[n] is None) and n in tasks[0]):
+                probs.append(f"explicit (partial) tasks_params with defaulted shared_params: .grad of {n} is {None if g3[n] is None else g3[n].tolist()}, "
+                             f"expected {None if g4[n] is None else g4[n].tolist()}")
     for n in names:
         a, b = g1[n], g2[n]
         za = np.zeros(tuple(p1[n].shape)) if a is None else a
@@ -117,7 +129,28 @@ def r_typed(c):
             built = False
         same = all(sorted(r) == sorted(c["reqs"][0]) for r in c["reqs"])
         disj = sum(len(o) for o in c["outs"]) == len(set().union(*[set(o) for o in c["outs"]]))
-        return dict(reproduced=built != (same and disj))
+        if built != (same and disj):
+            return dict(reproduced=True, why=["construction accepted/rejected against the key rule"])
+        if not built:
+            return dict(reproduced=False)
+        # typed, possibly key-less members: the result must have the most specific common type
+        class TStub(Stub):
+            def _compute(self, inp):
+                return self.typ({keys[i]: val(keys[i], self.typ) for i in self.out}) if (self.out or self.typ is not EmptyTensorDict) else EmptyTensorDict()
+        ts = [TStub(r, o, TYPES[t]) for r, o, t in zip(c["reqs"], c["outs"], c["types"])]
+        conj = Conjunction(ts)
+        inp = Gradients({keys[i]: val(keys[i], Gradients) for i in c["reqs"][0]}) if c["reqs"][0] else EmptyTensorDict()
+        res = conj(inp)
+        def lca(a, b):
+            for cand in a.mro()[:-1]:
+                if issubclass(b, cand):
+                    return cand
+            return TensorDict
+        exp = EmptyTensorDict
+        for t in c["types"]:
+            exp = lca(exp, TYPES[t])
+        ok = type(res) is exp and set(res.keys()) == {keys[i] for o in c["outs"] for i in o}
+        return dict(reproduced=not ok, why=[] if ok else [f"result type {type(res).__name__}, most specific common type of the parts is {exp.__name__}"])
     if w == "tensor_dict":
         typ = TYPES[c["type"]]
         d = {torch.zeros(tuple(c["key_shape"])): torch.zeros(tuple(c["value_shape"]))}
